@@ -10,6 +10,7 @@ import (
 	"context"
 	"encoding/binary"
 	"fmt"
+	"os"
 	"strings"
 	"sync"
 	"sync/atomic"
@@ -26,7 +27,7 @@ import (
 )
 
 var st = stat.New("C11",
-	"Case = one proxy (with or without a registered push callback) + a scripted server that answers every request; 1..4 rounds, round = {warm-up call on the live connection, server-side close of kind {right after a response | while idle | reconnect notification (id 0, _reconnect_) then close after 20 ms | reconnect notification, after which the server stops serving that connection and closes it only 1.5 s later | abortive close (RST) | listener restart | listener restart with 1..8 calls issued while the server is down (after enough successful calls to keep the failures a minority in the health counters)}; a third of the cases use a client send queue of 4 requests (clientqueuelen), wait until the client has observed the close, generated gap from {0,1,10,100,300,500,700,900,1100,2500} ms, then 1..3 concurrent calls with a 1200 ms timeout; optionally a 1150 ms settle period}. Oracle: every call issued after the observed close succeeds (a call that fails or takes >= 1000 ms is a violation; 400..1000 ms is re-run twice before it counts); the server log shows each call's request exactly once and within 400 ms of the call; at most one new connection is opened per close; after the settle period the healthy new connection is not regarded as closed and no further connection was opened. Non-trivial = a call issued < 1 s after an observed close, preceded by >= 1 successful call on the closed connection. Distinct = distinct case JSON.",
+	"Case = one proxy (with or without a registered push callback) + a scripted server that answers every request; 1..4 rounds, round = {warm-up call on the live connection, server-side close of kind {right after a response | while idle | reconnect notification (id 0, _reconnect_) then close after 20 ms | reconnect notification, after which the server stops serving that connection and closes it only 1.5 s later | abortive close (RST) | an ordinary server push followed 100 ms later by an idle close (the push callback may take 0 / 300 / 1200 ms) | listener restart | listener restart with 1..8 calls issued while the server is down (after enough successful calls to keep the failures a minority in the health counters)}; a third of the cases use a client send queue of 4 requests (clientqueuelen), wait until the client has observed the close (at most 200 ms), generated gap from {0,1,10,100,300,500,700,900,1100,2500} ms, then 1..3 concurrent calls with a 1200 ms timeout; optionally a 1150 ms settle period}. Oracle: every call issued after the observed close succeeds (a call that fails or takes >= 1000 ms is a violation; 400..1000 ms is re-run twice before it counts); the server log shows each call's request exactly once and within 400 ms of the call; at most one new connection is opened per close; after the settle period the healthy new connection is not regarded as closed and no further connection was opened. Non-trivial = a call issued < 1 s after an observed close, preceded by >= 1 successful call on the closed connection. Distinct = distinct case JSON.",
 	"calls racing with a close the client cannot yet know about (FIN in flight) are excluded by construction: calls are issued only after the transport's closed flag is set",
 	"interleavings of the client's sender/receiver goroutines are sampled through the generated gaps, not enumerated")
 
@@ -49,16 +50,21 @@ type Case struct {
 	Rounds       []Round `json:"rounds"`
 	// SmallQueue: the client's send queue holds 4 requests (clientqueuelen) instead of 10000
 	SmallQueue bool `json:"small_queue,omitempty"`
+	// SlowPushMs > 0 (with PushCallback): the push callback takes that long to return
+	SlowPushMs int `json:"slow_push_ms,omitempty"`
 }
 
 func draw(rt *rapid.T) Case {
 	var c Case
 	c.PushCallback = rapid.IntRange(0, 2).Draw(rt, "pushCallback") == 0
 	c.SmallQueue = rapid.IntRange(0, 2).Draw(rt, "smallQueue") == 0
+	if c.PushCallback && rapid.Bool().Draw(rt, "slowPush") {
+		c.SlowPushMs = rapid.SampledFrom([]int{300, 1200}).Draw(rt, "slowPushMs")
+	}
 	n := rapid.IntRange(1, 4).Draw(rt, "nrounds")
 	for i := 0; i < n; i++ {
 		rd := Round{
-			Close:  rapid.SampledFrom([]string{"after-response", "after-response", "idle", "idle", "push", "push-linger", "push-linger", "rst", "restart", "restart-down", "restart-down"}).Draw(rt, "close"),
+			Close:  rapid.SampledFrom([]string{"after-response", "after-response", "idle", "idle", "push", "push-linger", "push-linger", "rst", "restart", "restart-down", "restart-down", "push-data", "push-data"}).Draw(rt, "close"),
 			GapMs:  rapid.SampledFrom([]int{0, 1, 10, 100, 300, 500, 700, 900, 1100, 2500}).Draw(rt, "gap"),
 			NCalls: rapid.IntRange(1, 3).Draw(rt, "ncalls"),
 			Settle: rapid.IntRange(0, 3).Draw(rt, "settle") == 0,
@@ -169,7 +175,8 @@ func runOnce(c Case) outcome {
 		return len(seen)
 	}
 	if c.PushCallback {
-		e.sp.SetPushCallback(func([]byte) {})
+		slow := time.Duration(c.SlowPushMs) * time.Millisecond
+		e.sp.SetPushCallback(func([]byte) { time.Sleep(slow) })
 	}
 
 	checkCall := func(round int, what string, err error, took time.Duration, tok uint32, start time.Time) *outcome {
@@ -243,6 +250,14 @@ func runOnce(c Case) outcome {
 			}
 		case "idle":
 			srv.CloseAllConns()
+		case "push-data":
+			// an ordinary server push (id 0, not the reconnect notification) and, while the
+			// client's push callback may still be busy with it, an idle close
+			for _, id := range srv.OpenConnIDs() {
+				_ = srv.WriteRaw(id, peer.EncodeReply(1, 0, 0, 0, "news", 0, []byte("pushed payload")), 0, 0, "push-data")
+			}
+			time.Sleep(100 * time.Millisecond)
+			srv.CloseAllConns()
 		case "rst":
 			srv.ResetAllConns()
 		case "push":
@@ -271,8 +286,10 @@ func runOnce(c Case) outcome {
 				return outcome{f: stat.Failf("harness-failure", "relisten: %v", err)}
 			}
 		}
-		// wait until the client has observed the close
-		dl := time.Now().Add(2 * time.Second)
+		// give the client the time a close needs to cross the loopback and be read (a client
+		// that has not noticed it after 200 ms is late: the calls below are issued "after
+		// that close" all the same)
+		dl := time.Now().Add(200 * time.Millisecond)
 		if rd.Close == "push-linger" {
 			// the notification itself is the close event; it needs no more than a loopback
 			// round trip to arrive
@@ -283,8 +300,9 @@ func runOnce(c Case) outcome {
 			time.Sleep(200 * time.Microsecond)
 		}
 		if rd.Close != "push-linger" && !e.clientClosed() {
-			st.Class("close-not-observed-by-client", 1)
-			continue
+			// 200 ms after the server closed the connection the client still regards it as open:
+			// the calls below are issued "after that close" all the same
+			st.Class("close-not-observed-by-client-within-200ms", 1)
 		}
 		time.Sleep(time.Duration(rd.GapMs) * time.Millisecond)
 		type res struct {
@@ -381,8 +399,22 @@ func run(c Case) *stat.Failure {
 	return o.f
 }
 
+// pinned: the histories that need a busy push callback at the moment of the close
+var pinnedCases = map[string]Case{
+	"close-while-push-callback-busy": {PushCallback: true, SlowPushMs: 1200, Rounds: []Round{
+		{Close: "push-data", GapMs: 100, NCalls: 1}, {Close: "push-data", GapMs: 500, NCalls: 2}}},
+	"restart-with-calls-during-downtime": {SmallQueue: true, Rounds: []Round{
+		{Close: "restart-down", DownCalls: 6, GapMs: 1, NCalls: 2}}},
+}
+
 func TestC11(t *testing.T) {
 	defer st.Emit()
+	if stat.ReplayPath() == "" && os.Getenv("VERIF_ONLY") == "" {
+		stat.Pinned(t, st, "reconnect", pinnedCases, func(c Case) *stat.Failure {
+			st.CaseJSON(c, true, "pinned")
+			return run(c)
+		})
+	}
 	stat.Check(t, st, "reconnect", stat.N(14, 600), draw, func(c Case) *stat.Failure {
 		nt := false
 		var cls []string
